@@ -10,9 +10,14 @@ def check(ctx):
     core3.top_module_helper(ctx, "C06")
     core3.tmodule_control_table(ctx, "C06", want_enter=False, want_mirror=True)
     core2.body_wrappers(ctx, "C06")
+    from . import core6
+
+    core6.tmodule_fsm_restore(ctx, "C06")
 
 
 MUTANTS = [
+    ("fsm-pointer-not-restored", T, "                yield fsm\n        self.fsm = old_fsm\n", "                yield fsm\n"),
+    ("fsm-pointer-restored-to-inner", T, "                yield fsm\n        self.fsm = old_fsm\n", "                yield fsm\n        self.fsm = fsm\n"),
     ("av-comb-into-main", T, 'return _AvoidingModuleBuilderDomain(self._m.avoiding_module.d["comb"])', 'return _AvoidingModuleBuilderDomain(self._m.main_module.d["comb"])'),
     ("top-comb-into-avoiding", T, 'return _AvoidingModuleBuilderDomain(top_module(self._m).d["comb"])', 'return _AvoidingModuleBuilderDomain(self._m.avoiding_module.d["comb"])'),
     ("avoided-if-mirrored", T, "        with self.main_module.If(cond):\n            with self.path_builder.enter(EnterType.PUSH):\n                yield", "        with self.main_module.If(cond):\n            with self.avoiding_module.If(cond):\n                with self.path_builder.enter(EnterType.PUSH):\n                    yield"),
